@@ -32,15 +32,14 @@ Proof.
     eapply same_frame_trans; [apply (Hk _ _ _ E) | apply (IH HF' _ _ H)].
 Qed.
 
-Lemma lst_frame rec is_sep a is_ref l :
-  Forall (frame_ok rec) l -> forall top top', lst_loop rec is_sep a is_ref l top = BOk top' -> same_frame top top'.
+Lemma lst_frame rec is_sep a refcls l :
+  Forall (frame_ok rec) l -> forall top top', lst_loop rec is_sep a refcls l top = BOk top' -> same_frame top top'.
 Proof.
   induction l as [|k l IH]; intros HF top top' H; cbn [lst_loop] in H.
   - inversion H; subst. apply same_frame_refl.
   - inversion HF as [|? ? Hk HF']; subst.
     destruct (is_sep k); [apply (IH HF' _ _ H)|].
-    destruct (rec k top) as [[v top1]|e] eqn:E; [|discriminate].
-    destruct is_ref; [discriminate|].
+    destruct (rec k top) as [[v top1]|e] eqn:E; [|discriminate]. cbv zeta in H.
     destruct top1 as [c1|]; [|discriminate].
     pose proof (Hk _ _ _ E) as F1.
     destruct (get_val a (c_vals c1)) as [[]|] eqn:Eg; try discriminate.
@@ -97,14 +96,13 @@ Proof.
         destruct (val_truthy av && negb (is_vlist av))%bool; [discriminate|].
         destruct kids as [|k rest]; [discriminate|].
         inversion IH as [|? ? Hk _]; subst.
-        destruct (pn k (Some c)) as [[v1 top1]|e] eqn:E; [|discriminate].
-        destruct (a_ref ma && negb (a_cont ma))%bool; [discriminate|].
+        destruct (pn k (Some c)) as [[v1 top1]|e] eqn:E; [|discriminate]. cbv zeta in H.
         destruct top1 as [c1|]; [|discriminate].
         pose proof (Hk _ _ _ E) as F1.
         destruct av; inversion H; subst; apply same_frame_set; exact F1.
       * (* optional *) inversion H; subst. apply same_frame_set. apply (same_frame_refl (Some c)).
       * (* list *)
-        destruct (lst_loop pn (is_sep_of g n) a (a_ref ma && negb (a_cont ma))%bool kids (Some c)) as [t1|e] eqn:E; [|discriminate].
+        match type of H with match ?X with _ => _ end = _ => destruct X as [t1|e] eqn:E end; [|discriminate].
         inversion H; subst. apply (lst_frame _ _ _ _ _ IH _ _ E).
     + destruct k.
       * (* common: the enclosing object is untouched *)
@@ -185,6 +183,7 @@ Hypothesis HTerm : forall r t, P (VTerm r t).
 Hypothesis HJoin : forall r ps, Forall P ps -> P (VJoin r ps).
 Hypothesis HConv : forall r v, P v -> P (VConv r v).
 Hypothesis HObj : forall c p e attrs, Forall (fun kv => P (snd kv)) attrs -> P (VObj c p e attrs).
+Hypothesis HRef : forall nm p c, P nm -> P (VRef nm p c).
 Hypothesis HList : forall l, Forall P l -> P (VList l).
 Fixpoint value_ind2 (v : value) : P v :=
   match v with
@@ -202,6 +201,7 @@ Fixpoint value_ind2 (v : value) : P v :=
                          | [] => Forall_nil _
                          | kv :: l' => Forall_cons kv (value_ind2 (snd kv)) (go l')
                          end) attrs)
+  | VRef nm p c => HRef nm p c (value_ind2 nm)
   | VList l => HList l ((fix go (l : list value) : Forall P l :=
                            match l with [] => Forall_nil P | x :: l' => Forall_cons x (value_ind2 x) (go l') end) l)
   end.
@@ -212,7 +212,7 @@ Proof. destruct x; cbn; lia. Qed.
 
 Lemma good_mono v : forall lo hi lo' hi', good lo hi v -> lo' <= lo -> hi <= hi' -> good lo' hi' v.
 Proof.
-  induction v as [| | | | |r ps IHj|r v IHc|c p e attrs IH|l IH] using value_ind2; intros lo hi lo' hi' H Hl Hh; try exact I.
+  induction v as [| | | | |r ps IHj|r v IHc|c p e attrs IH|nm q cl IHr|l IH] using value_ind2; intros lo hi lo' hi' H Hl Hh; try exact I.
   - apply good_obj in H. apply good_obj. destruct H as [A [B [C D]]]. repeat split; try lia. exact D.
   - revert lo lo' H Hl. induction l as [|x l IHl]; intros lo lo' H Hl; [exact I|].
     inversion IH as [|? ? Hx Hl']; subst.
@@ -333,10 +333,10 @@ Proof.
     apply (Hc1 lo hi Hc C1).
 Qed.
 
-Lemma lst_ok rec is_sep a is_ref E lo : forall l hi c top',
+Lemma lst_ok rec is_sep a refcls E lo : forall l hi c top',
   Forall (obj_ok rec) l -> Forall (fun k => wf_tree k = true) l -> forallb (asg_placed mm false) l = true ->
   chain hi l -> (forall k, In k l -> tend k <= E) -> hi <= E ->
-  lst_loop rec is_sep a is_ref l (Some c) = BOk top' -> cur_ok lo hi c ->
+  lst_loop rec is_sep a refcls l (Some c) = BOk top' -> cur_ok lo hi c ->
   exists c', top' = Some c' /\ cur_ok lo E c'.
 Proof.
   induction l as [|k l IH]; intros hi c top' HF Hwf Hpl Hch HE HhE H Hc; cbn [lst_loop] in H.
@@ -347,14 +347,15 @@ Proof.
     assert (HEk : tend k <= E) by (apply HE; left; reflexivity).
     destruct (is_sep k).
     + apply (IH hi c top' HF' Hwf' Hpl' (chain_mono (tend k) hi l C3 ltac:(lia)) (fun x Hx => HE x (or_intror Hx)) HhE H Hc).
-    + destruct (rec k (Some c)) as [[v top1]|e] eqn:E1; [|discriminate].
-      destruct (Hk false (Some c) v top1 Wk Pk E1) as [Gv [Hpure _]].
-      rewrite (Hpure (placed_false_not_asgn k Pk)) in H.
-      destruct is_ref; [discriminate|].
+    + destruct (rec k (Some c)) as [[v0 top1]|e] eqn:E1; [|discriminate].
+      destruct (Hk false (Some c) v0 top1 Wk Pk E1) as [Gv0 [Hpure _]].
+      rewrite (Hpure (placed_false_not_asgn k Pk)) in H. cbv zeta in H.
+      set (v := match refcls with Some cl => VRef v0 (tpos k) cl | None => v0 end) in *.
+      assert (Gv : good (tpos k) (tend k) v) by (subst v; destruct refcls; [exact I | exact Gv0]).
       assert (Gv' : good hi (tend k) v) by (apply (good_mono v _ _ _ _ Gv C1 (le_n _))).
       destruct Hc as [Hlo Hvals].
       assert (Hc' : cur_ok lo (tend k) c) by (apply (cur_ok_mono lo hi); [split; assumption | lia]).
-      destruct (get_val a (c_vals c)) as [[| | | | | | | |vs]|] eqn:Eg; try discriminate.
+      destruct (get_val a (c_vals c)) as [[| | | | | | | | |vs]|] eqn:Eg; try discriminate.
       * (* VNone: a fresh list *)
         apply (IH (tend k) _ top' HF' Hwf' Hpl' C3 (fun x Hx => HE x (or_intror Hx)) HEk H).
         apply cur_ok_set; [exact Hc'|]. rewrite good_vlist_cons. split; [|exact I].
@@ -413,10 +414,11 @@ Proof.
         destruct (val_truthy av && negb (is_vlist av))%bool; [discriminate|].
         inversion IH as [|? ? Hk _]; subst. inversion Hkwf as [|? ? Wk _]; subst.
         cbn [forallb] in Hpl. apply andb_true_iff in Hpl as [Pk _].
-        destruct (pn k0 (Some c)) as [[v1 top1]|e] eqn:E1; [|discriminate].
-        destruct (Hk false (Some c) v1 top1 Wk Pk E1) as [Gv [Hp _]].
-        rewrite (Hp (placed_false_not_asgn k0 Pk)) in H.
-        destruct (a_ref ma && negb (a_cont ma))%bool; [discriminate|].
+        destruct (pn k0 (Some c)) as [[v0 top1]|e] eqn:E1; [|discriminate].
+        destruct (Hk false (Some c) v0 top1 Wk Pk E1) as [Gv0 [Hp _]].
+        rewrite (Hp (placed_false_not_asgn k0 Pk)) in H. cbv zeta in H.
+        set (v1 := if (a_ref ma && negb (a_cont ma))%bool then VRef v0 (tpos k0) (a_cls ma) else v0) in *.
+        assert (Gv : good (tpos k0) (tend k0) v1) by (subst v1; destruct (a_ref ma && negb (a_cont ma))%bool; [exact I | exact Gv0]).
         assert (HEk : tend k0 <= tend (NT n (k0 :: rest0))) by (apply HE; left; reflexivity).
         assert (Hres : forall w, (forall lo hi, cur_ok lo hi c -> hi <= tpos k0 -> good lo (tend (NT n (k0 :: rest0))) w) ->
                   BOk (VNone, Some (cur_set a w c)) = BOk (v, top') ->
@@ -439,17 +441,18 @@ Proof.
         intros c0 Y. inversion Y; subst c0. eexists. split; [reflexivity|]. intros lo hi Hc Hh.
         apply cur_ok_set; [apply (cur_ok_mono _ _ _ _ Hc); lia | exact I].
       * (* list *)
-        destruct (lst_loop pn (is_sep_of g n) a (a_ref ma && negb (a_cont ma))%bool (k0 :: rest0) (Some c)) as [t1|e] eqn:E1; [|discriminate].
+        set (rc := if (a_ref ma && negb (a_cont ma))%bool then Some (a_cls ma) else None) in *.
+        destruct (lst_loop pn (is_sep_of g n) a rc (k0 :: rest0) (Some c)) as [t1|e] eqn:E1; [|discriminate].
         inversion H; subst. split; [exact I|]. split; [rewrite Hasg; discriminate|].
         intros c0 Y. inversion Y; subst c0.
         assert (X : forall lo hi, cur_ok lo hi c -> hi <= tpos (NT n (k0 :: rest0)) ->
                       exists c', top' = Some c' /\ cur_ok lo (tend (NT n (k0 :: rest0))) c').
         { intros lo hi Hc Hh.
-          apply (lst_ok pn (is_sep_of g n) a (a_ref ma && negb (a_cont ma))%bool (tend (NT n (k0 :: rest0))) lo (k0 :: rest0) hi c top' IH Hkwf Hpl); try assumption.
+          apply (lst_ok pn (is_sep_of g n) a rc (tend (NT n (k0 :: rest0))) lo (k0 :: rest0) hi c top' IH Hkwf Hpl); try assumption.
           - apply (chain_mono _ _ _ Hch). rewrite <- Htp. exact Hh.
           - lia. }
         (* the resulting object is the same for every frame: take it from the frame (0,0) instance *)
-        pose proof (lst_frame pn (is_sep_of g n) a (a_ref ma && negb (a_cont ma))%bool (k0 :: rest0)
+        pose proof (lst_frame pn (is_sep_of g n) a rc (k0 :: rest0)
                               (Forall_impl _ (fun t _ => pnode_frame g mm input grp auto use_grp t) IH) _ _ E1) as F.
         destruct top' as [c'|]; [|destruct F].
         exists c'. split; [reflexivity|]. intros lo hi Hc Hh. destruct (X lo hi Hc Hh) as [c2 [Ec Hc2]].
